@@ -218,7 +218,7 @@ pub fn check_run(prop: &str, root: &Root, depth: u8, k: Option<u64>, r: &SearchR
                             }
                         }
                         match parse_mv(&info.pv[0]) {
-                            Some(m) if root.legal.iter().any(|x| x.from == m.from && x.to == m.to) => {}
+                            Some(m) if root.legal.iter().any(|x| x.from == m.from && x.to == m.to && (m.promo.is_none() || m.promo == x.promo)) => {}
                             _ => acc.violation(format!("C18|pv|{}|{}", tag, info.pv[0]), format!("{}: first PV move {} is not legal in the searched position: {:?}", root.hist.end.to_fen(), info.pv[0], l), lcase.clone()),
                         }
                         if let Some((d, prev)) = last_key {
